@@ -337,7 +337,101 @@ pub fn run_case(rng: &mut Rng, case_seed: u64, processes: usize, argv_extra: &[S
     out
 }
 
+/// One large batch: n structurally different terms, one rule that matches every one of them in a single `apply_rewrites` call
+/// (match lists, pending work lists and hash maps far beyond the sizes of the generated histories), then probes. The transcript is
+/// a digest per phase plus the probe lines.
+fn big_transcript(n: usize, rule: usize) -> Result<Vec<String>, PanicInfo> {
+    guard(|| {
+        let mut out = vec![];
+        let mut eg: EGraph<LPay> = EGraph::default();
+        let mut ids = vec![];
+        let mut dig = 0u64;
+        for i in 0..n {
+            let t = match rule {
+                0 => format!("(app (cst {i}) (neg 1))"),
+                1 => format!("(idx $p0 (cst {i}))"),
+                _ => format!("(app (lam $p501 (var $p501)) (cst {i}))"),
+            };
+            let id = eg.add_expr(RecExpr::parse(&t).unwrap());
+            dig = Rng::mix(dig, crate::rng::fnv(&format!("{id:?}")));
+            ids.push(id);
+        }
+        out.push(format!("after {n} insertions: digest {dig:x} nodes={} classes={}", eg.total_number_of_nodes(), eg.ids().len()));
+        let (l, r) = [("(app ?a ?b)", "?a"), ("(idx $x ?a)", "(app ?a (var $x))"), ("(app (lam $x ?b) ?t)", "?b[(var $x) := ?t]")][rule];
+        let ms = ematch_all(&eg, &Pattern::parse(l).unwrap());
+        let mut md = 0u64;
+        for m in &ms {
+            let mut v: Vec<(&String, &AppliedId)> = m.iter().collect();
+            v.sort_by_key(|x| x.0.clone());
+            md = Rng::mix(md, crate::rng::fnv(&format!("{v:?}")));
+        }
+        out.push(format!("ematch {l}: {} matches, digest of the list in returned order {md:x}", ms.len()));
+        let changed = apply_rewrites(&mut eg, &[Rewrite::new("big", l, r)]);
+        let p = eg.progress();
+        out.push(format!("rewrite {l} => {r} -> {changed}; nodes={} progress=({}, {}, {}, {})", eg.total_number_of_nodes(), p.number_of_classes, p.number_of_live_classes, p.sum_of_slots, p.sum_of_symmetries));
+        let mut idd = 0u64;
+        for i in eg.ids() {
+            idd = Rng::mix(idd, i.0 as u64);
+        }
+        out.push(format!("live ids digest {idd:x}"));
+        let ex = Extractor::<LPay, AstSize>::new(&eg, AstSize);
+        let mut fd = 0u64;
+        for (k, id) in ids.iter().enumerate() {
+            let f = eg.find_applied_id(id);
+            fd = Rng::mix(fd, crate::rng::fnv(&format!("{f:?}")));
+            if k % 257 == 0 || k + 3 >= n {
+                out.push(format!("probe #{k}: find {f:?} extract {} cost {}", ex.extract(id, &eg), ex.get_best_cost::<()>(&f)));
+            }
+        }
+        out.push(format!("find digest over all handles {fd:x}"));
+        out
+    })
+}
+
+fn run_big_case(rng: &mut Rng) -> CaseOut {
+    let mut out = CaseOut::default();
+    let n = rng.range(10_200, 40_000);
+    let rule = rng.below(3);
+    let cj = J::obj(vec![("mode", J::s("big-batch")), ("terms", J::I(n as i64)), ("rule", J::I(rule as i64))]);
+    let run = move || std::thread::Builder::new().stack_size(256 << 20).spawn(move || big_transcript(n, rule)).unwrap();
+    let base = match run().join().unwrap() {
+        Ok(b) => b,
+        Err(p) => {
+            out.fail(Fail::panic("panic-in-history", &p, "the large batch panicked in its baseline run", cj));
+            return out;
+        }
+    };
+    // replays: one alone again (after the baseline has run in this process), then two concurrently
+    let mut reps = vec![run().join().unwrap()];
+    let (a, b) = (run(), run());
+    reps.push(a.join().unwrap());
+    reps.push(b.join().unwrap());
+    for (k, r) in reps.into_iter().enumerate() {
+        out.inc("big_batch_replays");
+        match r {
+            Ok(t) => {
+                if let Some(i) = (0..base.len().max(t.len())).find(|i| base.get(*i) != t.get(*i)) {
+                    out.fail(Fail::new("transcript-differs", "big-batch", format!("replay {k} of a batch of {n} terms differs from the first run at line {i}: `{}` vs `{}`", base.get(i).cloned().unwrap_or_default(), t.get(i).cloned().unwrap_or_default()), cj));
+                    return out;
+                }
+            }
+            Err(p) => {
+                out.fail(Fail::panic("panic-only-in-replay", &p, &format!("replay {k} of the large batch"), cj));
+                return out;
+            }
+        }
+    }
+    out.add("big_batch_terms", n as u64);
+    out.nontrivial = Some(Rng::mix(n as u64, rule as u64));
+    out.sample = Some(J::obj(vec![("mode", J::s("big-batch")), ("terms", J::I(n as i64)), ("lines", J::arr_s(&base.iter().take(4).cloned().collect::<Vec<_>>()))]));
+    out
+}
+
 pub fn run(args: &Args, rep: &mut Rep) {
+    if args.param_u("big", 0) == 1 {
+        drive(args, rep, |rng, _| run_big_case(rng));
+        return;
+    }
     let directed = args.param_u("directed_kf1", 0) == 1;
     DIRECTED_KF1.with(|d| d.set(directed));
     if args.param_u("transcript", 0) == 1 {
